@@ -2,6 +2,8 @@ import CvssVerif.Proofs.Decoders
 import CvssVerif.Proofs.Agree3
 import CvssVerif.Props.C07
 import CvssVerif.Props.C08
+import CvssVerif.Props.C10
+import CvssVerif.Props.C11
 /-
   The tie by translation of the decoders, encoders and validity checks: what `Generated/Decoders.lean` (rewritten from
   the source text of /repo/v3/metric and /repo/v2/metric on every run by go/decoders) computes is what the model
@@ -175,6 +177,92 @@ theorem v2_accepts_iff_source (s : Bytes) :
       simpa using this
     · intro h
       exact ⟨_, by simp only [h]; rfl⟩
+
+/-- **C11 carried to the source text** (v3, all three decoders): whatever sentinel the translated `NewX().Decode(s)` reports, the
+    input has that defect -/
+theorem v3_errors_sound_source (s : Bytes) (e : Err) :
+    ((∃ o ok, Gen.D3.Base_Decode Gen.D3.NewBase s = some (o, (ok, some e))) → Spec3.defect3 .base e s = true) ∧
+    ((∃ o ok, Gen.D3.Temporal_Decode Gen.D3.NewTemporal s = some (o, (ok, some e))) → Spec3.defect3 .temporal e s = true) ∧
+    ((∃ o ok, Gen.D3.Environmental_Decode Gen.D3.NewEnvironmental s = some (o, (ok, some e))) → Spec3.defect3 .environmental e s = true) := by
+  refine ⟨?_, ?_, ?_⟩
+  · rintro ⟨o, ok, h⟩
+    rw [Base_Decode_3] at h
+    have h2 : (V3.decode .base Gen.D3.NewBase s).2 = some e := by
+      have := congrArg (fun r => r.map (fun x => x.2.2)) h; simpa using this
+    rw [V3.decode_agree constructors_agree.1 s] at h2
+    exact C11.err3_sound .base s (V3.decode .base V3.Obj3.new s).1 e (by rw [← h2])
+  · rintro ⟨o, ok, h⟩
+    rw [Temporal_Decode_3] at h
+    have h2 : (V3.decode .temporal Gen.D3.NewTemporal s).2 = some e := by
+      have := congrArg (fun r => r.map (fun x => x.2.2)) h; simpa using this
+    rw [V3.decode_agree constructors_agree.2 s] at h2
+    exact C11.err3_sound .temporal s (V3.decode .temporal V3.Obj3.new s).1 e (by rw [← h2])
+  · rintro ⟨o, ok, h⟩
+    rw [Environmental_Decode_3, newEnv3_eq] at h
+    have h2 : (V3.decode .environmental V3.Obj3.new s).2 = some e := by
+      have := congrArg (fun r => r.map (fun x => x.2.2)) h; simpa using this
+    exact C11.err3_sound .environmental s (V3.decode .environmental V3.Obj3.new s).1 e (by rw [← h2])
+
+/-- **C11 carried to the source text** (v2, all three decoders; includes incomplete groups and misordered vectors) -/
+theorem v2_errors_sound_source (s : Bytes) (e : Err) :
+    ((∃ o ok, Gen.D2.Base_Decode Gen.D2.NewBase s = some (o, (ok, some e))) → Spec2.defect2 .base e s = true) ∧
+    ((∃ o ok, Gen.D2.Temporal_Decode Gen.D2.NewTemporal s = some (o, (ok, some e))) → Spec2.defect2 .temporal e s = true) ∧
+    ((∃ o ok, Gen.D2.Environmental_Decode Gen.D2.NewEnvironmental s = some (o, (ok, some e))) → Spec2.defect2 .environmental e s = true) := by
+  refine ⟨?_, ?_, ?_⟩
+  · rintro ⟨o, ok, h⟩
+    rw [Base_Decode_2, new2_eq.2.2] at h
+    have h2 : (V2.decode .base V2.Obj2.new s).2 = some e := by
+      have := congrArg (fun r => r.map (fun x => x.2.2)) h; simpa using this
+    exact C11.err2_sound .base s (V2.decode .base V2.Obj2.new s).1 e (by rw [← h2])
+  · rintro ⟨o, ok, h⟩
+    rw [Temporal_Decode_2, new2_eq.2.1] at h
+    have h2 : (V2.decode .temporal V2.Obj2.new s).2 = some e := by
+      have := congrArg (fun r => r.map (fun x => x.2.2)) h; simpa using this
+    exact C11.err2_sound .temporal s (V2.decode .temporal V2.Obj2.new s).1 e (by rw [← h2])
+  · rintro ⟨o, ok, h⟩
+    rw [Environmental_Decode_2, new2_eq.1] at h
+    have h2 : (V2.decode .environmental V2.Obj2.new s).2 = some e := by
+      have := congrArg (fun r => r.map (fun x => x.2.2)) h; simpa using this
+    exact C11.err2_sound .environmental s (V2.decode .environmental V2.Obj2.new s).1 e (by rw [← h2])
+
+/-- **C10 carried to the source text** (v2, all three decoders; v3 environmental): for every string the translated decoder accepts,
+    the translated `Encode()` of the object it returns succeeds with — v2 — the input itself, byte for byte, resp. — v3 — the
+    specification's canonical vector -/
+theorem encode_of_accepted_source (s : Bytes) :
+    (∀ o, Gen.D2.Base_Decode Gen.D2.NewBase s = some (o, (true, none)) → Gen.D2.Base_Encode o = some (o, (s, none))) ∧
+    (∀ o, Gen.D2.Temporal_Decode Gen.D2.NewTemporal s = some (o, (true, none)) → Gen.D2.Temporal_Encode o = some (o, (s, none))) ∧
+    (∀ o, Gen.D2.Environmental_Decode Gen.D2.NewEnvironmental s = some (o, (true, none)) → Gen.D2.Environmental_Encode o = some (o, (s, none))) ∧
+    (∀ o, Gen.D3.Environmental_Decode Gen.D3.NewEnvironmental s = some (o, (true, none)) →
+      Gen.D3.Environmental_Encode o = some (o, (Spec3.canon3 .environmental s, none))) := by
+  refine ⟨?_, ?_, ?_, ?_⟩
+  · intro o h
+    rw [Base_Decode_2, new2_eq.2.2] at h
+    have ho : (V2.decode .base V2.Obj2.new s).1 = o := by
+      have := congrArg (fun r => r.map (fun x => x.1)) h; simpa using this
+    have he : (V2.decode .base V2.Obj2.new s).2 = none := by
+      have := congrArg (fun r => r.map (fun x => x.2.2)) h; simpa using this
+    rw [Base_Encode_2, C10.encode2_identity .base s o (by rw [← ho, ← he])]
+  · intro o h
+    rw [Temporal_Decode_2, new2_eq.2.1] at h
+    have ho : (V2.decode .temporal V2.Obj2.new s).1 = o := by
+      have := congrArg (fun r => r.map (fun x => x.1)) h; simpa using this
+    have he : (V2.decode .temporal V2.Obj2.new s).2 = none := by
+      have := congrArg (fun r => r.map (fun x => x.2.2)) h; simpa using this
+    rw [Temporal_Encode_2, C10.encode2_identity .temporal s o (by rw [← ho, ← he])]
+  · intro o h
+    rw [Environmental_Decode_2, new2_eq.1] at h
+    have ho : (V2.decode .environmental V2.Obj2.new s).1 = o := by
+      have := congrArg (fun r => r.map (fun x => x.1)) h; simpa using this
+    have he : (V2.decode .environmental V2.Obj2.new s).2 = none := by
+      have := congrArg (fun r => r.map (fun x => x.2.2)) h; simpa using this
+    rw [Environmental_Encode_2, C10.encode2_identity .environmental s o (by rw [← ho, ← he])]
+  · intro o h
+    rw [Environmental_Decode_3, newEnv3_eq] at h
+    have ho : (V3.decode .environmental V3.Obj3.new s).1 = o := by
+      have := congrArg (fun r => r.map (fun x => x.1)) h; simpa using this
+    have he : (V3.decode .environmental V3.Obj3.new s).2 = none := by
+      have := congrArg (fun r => r.map (fun x => x.2.2)) h; simpa using this
+    rw [Environmental_Encode_3, C10.encode3_canonical (L := .environmental) (s := s) (o := o) (by rw [← ho, ← he])]
 
 /-- the obligation under which the three string-keyed `names` maps of the source are the model's metric-keyed `named` -/
 theorem names_abstraction_ok :
